@@ -355,6 +355,15 @@ pub fn candgroups(seed: u64, thorough: bool) -> Vec<BuildSpec> {
     let mut out = Vec::new();
     let mut r = rng(seed, 8);
     let groups = if thorough { 400 } else { 60 };
+    for (g, &v) in [33usize, 40].iter().enumerate() {
+        if !thorough && g == 1 { continue; }
+        let p = vec![b't'; capacity(2, 1, v)];
+        for m in 0..9usize {
+            let mut s = spec(p.clone(), Some(1), Some(2), Some(v), if m < 8 { Some(m) } else { None }, format!("candgroup:uniform:{v}:{m}"));
+            s.grp = 6_000_000 + g as u64;
+            out.push(s);
+        }
+    }
     for g in 0..groups {
         let v = 1 + g % 5;
         let e = (g / 5) % 4;
